@@ -79,7 +79,10 @@ class StarFinderBase(metaclass=abc.ABCMeta):
                 footprint = kernel.mask.astype(bool)
         else:
             # define a local circular footprint for the peak finder
-            idx = np.arange(-min_separation, min_separation + 1)
+            # integer pixel offsets centered on zero (a non-integer
+            # min_separation would otherwise give an off-center grid)
+            size = int(min_separation)
+            idx = np.arange(-size, size + 1)
             xx, yy = np.meshgrid(idx, idx)
             footprint = np.array((xx**2 + yy**2) <= min_separation**2,
                                  dtype=int)
